@@ -143,6 +143,46 @@ FLAG_UNGUARDED = HEAD + """        flag = std.SyncFlag({args})
                     self.got ^= True
 """
 
+# a defensive clear() issued while the consumer sees the flag as clear must be a no-op (it must not re-raise the flag)
+MBOX_DEFENSIVE = HEAD + """        mbox = std.Mailbox[Unsigned[{w}]]({args})
+
+        @std.sequential(std.Clock(self.clk))
+        def producer():
+            if self.send:
+                if mbox.is_clear():
+                    mbox.send(self.din)
+                    self.sent ^= True
+
+        @std.sequential(std.Clock(self.clk))
+        def consumer():
+            if mbox.is_set():
+                if self.want:
+                    self.dout <<= mbox.data()
+                    mbox.clear()
+                    self.got ^= True
+            else:
+                mbox.clear()
+"""
+
+FLAG_DEFENSIVE = HEAD + """        flag = std.SyncFlag({args})
+
+        @std.sequential(std.Clock(self.clk))
+        def producer():
+            if self.send:
+                if flag.is_clear():
+                    flag.set()
+                    self.sent ^= True
+
+        @std.sequential(std.Clock(self.clk))
+        def consumer():
+            if flag.is_set():
+                if self.want:
+                    flag.clear()
+                    self.got ^= True
+            elif self.want:
+                flag.clear()
+"""
+
 FLAG_SAME = HEAD + """        flag = std.SyncFlag()
 
         @std.sequential(std.Clock(self.clk))
@@ -202,6 +242,12 @@ def run(ck: common.Check, replay=None):
     for tx, rx in ([(0, 0), (1, 1)] if ck.tier == "quick" else delays):
         designs.append({"name": f"flag_async_with_t{tx}_r{rx}", "source": FLAG_ASYNC_WITH.format(w=2, args=delay_args(tx, rx)), "entity": "W"})
         metas.append({"component": "SyncFlag", "form": "coroutine consumer (async with, body with a conditional return)", "tx_delay": tx, "rx_delay": rx, "payload": True})
+    for tx, rx in ([(0, 0), (1, 1), (0, 2)] if ck.tier == "quick" else delays):
+        a = delay_args(tx, rx)
+        designs.append({"name": f"mbox_defensive_t{tx}_r{rx}", "source": MBOX_DEFENSIVE.format(w=2, args=a), "entity": "W"})
+        metas.append({"component": "Mailbox", "form": "defensive clear while clear (two contexts)", "tx_delay": tx, "rx_delay": rx, "payload": True})
+        designs.append({"name": f"flag_defensive_t{tx}_r{rx}", "source": FLAG_DEFENSIVE.format(w=1, args=a), "entity": "W"})
+        metas.append({"component": "SyncFlag", "form": "defensive clear while clear (two contexts)", "tx_delay": tx, "rx_delay": rx, "payload": False})
     designs.append({"name": "flag_same", "source": FLAG_SAME.format(w=1), "entity": "W"})
     metas.append({"component": "SyncFlag", "form": "same context", "tx_delay": 0, "rx_delay": 0, "payload": False})
     res = X.compile_designs(ck, designs)
